@@ -68,22 +68,22 @@ Proof.
   apply (@ch_inj c U CH) in Et; auto. subst T'. contradiction.
 Qed.
 
-Lemma on_disk_del_hdr x id m : on_disk (write x [WDelH id]) m <-> on_disk x m /\ h_id (c m) <> id.
+(** deleteKeys: the header and its index entry leave in one write *)
+Lemma on_disk_del_hdr x id k m : on_disk (write x [WDelH id; WDelI k]) m <-> on_disk x m /\ h_id (c m) <> id.
 Proof.
   unfold on_disk. cbn. rewrite lookup_delete_Some. split; intros [? ?]; split; auto.
 Qed.
 
 (** ** the deleteSequential loop under a disk predicate [J] that implies soundness *)
 Lemma delete_seq_steps2 (J : st -> Prop) script nh : disk_pred J ->
-  (forall x n, J x -> J (write x [WDelI n])) ->
   (forall x, J x -> ptrs_sound x) ->
   forall cnt s n log,
-  (forall x m, n <= m -> inr m -> J x -> J (write x [WDelH (h_id (c m))])) ->
+  (forall x m, n <= m -> inr m -> J x -> J (write x [WDelH (h_id (c m)); WDelI m])) ->
   minv s -> J s ->
   let '(s', _, _, _) := delete_seq s script nh n cnt log in
   steps ptrs_sound s s' /\ J s'.
 Proof.
-  intros DJ JI JS. induction cnt as [|cnt IH]; intros s n log JH M Js; cbn [delete_seq].
+  intros DJ JS. induction cnt as [|cnt IH]; intros s n log JH M Js; cbn [delete_seq].
   - split; auto. apply st_refl.
   - assert (H1 : let '(s1, _, _) := delete_single s script nh n log in
                  steps ptrs_sound s s1 /\ J s1 /\ minv s1).
@@ -101,16 +101,15 @@ Proof.
         destruct ok; [|split_and!; auto; apply st_refl].
         destruct (del1_minv s n M Sn) as [M' _].
         pose proof (stored_inr s n M Sn) as Hn.
-        assert (J1 : J (write s [WDelH (h_id (c n))])) by (apply JH; auto; lia).
-        assert (J2 : J (write (write s [WDelH (h_id (c n))]) [WDelI n])) by (apply JI; auto).
+        assert (J1 : J (write s [WDelH (h_id (c n)); WDelI n])) by (apply JH; auto; lia).
         split_and!; auto.
-        + eapply st_write; [apply JS; exact J1|]. eapply st_write; [apply JS; exact J2|].
+        + eapply st_write; [apply JS; exact J1|].
           apply steps_mem1. apply mem_pend_del.
-        + apply (DJ _ _ (disk_eq_sym _ _ (proj2 (mem_pend_del _ n))) J2).
+        + apply (DJ _ _ (disk_eq_sym _ _ (proj2 (mem_pend_del _ n))) J1).
       - rewrite (delete_single_missing s script nh n log Sn). split_and!; auto. apply st_refl. }
     destruct (delete_single s script nh n log) as [[s1 log1] ok1]. destruct H1 as (T1 & J1 & M1).
     destruct ok1; [|split; auto].
-    assert (JH' : forall x m, n + 1 <= m -> inr m -> J x -> J (write x [WDelH (h_id (c m))]))
+    assert (JH' : forall x m, n + 1 <= m -> inr m -> J x -> J (write x [WDelH (h_id (c m)); WDelI m]))
       by (intros x m Hm; apply JH; lia).
     pose proof (IH s1 (n + 1) log1 JH' M1 J1) as H2.
     destruct (delete_seq s1 script nh (n + 1) cnt log1) as [[[s2 log2] a2] ok2].
@@ -174,7 +173,7 @@ Proof. intros a a' (E1 & _ & _ & E4) [A B]. unfold Jt, on_disk in *. rewrite <- 
 Lemma Jh_disk K : disk_pred (Jh K).
 Proof. intros a a' E [A B]. split; [destruct E as (_ & _ & E3 & _); congruence|apply (ps_disk_pred a); auto]. Qed.
 
-Lemma Jh_del_hdr K x m : inr K -> K < m -> inr m -> Jh K x -> Jh K (write x [WDelH (h_id (c m))]).
+Lemma Jh_del_hdr K x m : inr K -> K < m -> inr m -> Jh K x -> Jh K (write x [WDelH (h_id (c m)); WDelI m]).
 Proof.
   intros HK Hm Hi [A B]. split; [exact A|].
   intros T H Et Eh HT HH OT OH. apply on_disk_del_hdr in OT, OH. destruct OT as [OT _], OH as [OH _].
@@ -201,23 +200,19 @@ Proof.
   destruct (fails_at nh fails T).
   - split; [apply st_refl|left; reflexivity].
   - set (s1 := del1 s (h_id (c T)) T).
-    assert (J1 : Jt T (write s [WDelH (h_id (c T))])).
+    assert (J1 : Jt T (write s [WDelH (h_id (c T)); WDelI T])).
     { split; [exact D2|]. intros O. apply on_disk_del_hdr in O. destruct O; congruence. }
-    assert (J2 : Jt T (write (write s [WDelH (h_id (c T))]) [WDelI T])).
-    { destruct J1 as [A B]. split; auto. }
-    assert (J3 : Jt T s1) by (apply (Jt_disk T _ _ (disk_eq_sym _ _ (proj2 (mem_pend_del _ T))) J2)).
+    assert (J3 : Jt T s1) by (apply (Jt_disk T _ _ (disk_eq_sym _ _ (proj2 (mem_pend_del _ T))) J1)).
     destruct (del1_minv s T M ST) as [M1 _].
     pose proof (delete_seq_steps2 (Jt T) (script_of fails) nh (Jt_disk T)) as L.
-    specialize (L (fun x n Jx => conj (proj1 Jx) (proj2 Jx))).
     specialize (L (fun x Jx => ps_tail_gone x T (proj1 Jx) HT (proj2 Jx))).
     specialize (L cnt s1 (T + 1) ([] ++ all_calls nh T)).
-    assert (JH : forall x m, T + 1 <= m -> inr m -> Jt T x -> Jt T (write x [WDelH (h_id (c m))])).
+    assert (JH : forall x m, T + 1 <= m -> inr m -> Jt T x -> Jt T (write x [WDelH (h_id (c m)); WDelI m])).
     { intros x m _ _ [A B]. split; [exact A|]. intros O. apply on_disk_del_hdr in O. tauto. }
     specialize (L JH M1 J3).
     destruct (delete_seq s1 (script_of fails) nh (T + 1) cnt ([] ++ all_calls nh T)) as [[[s2 l2] a2] ok2].
     destruct L as [T2 J4]. split; auto.
     eapply st_write; [apply (ps_tail_gone _ T (proj1 J1) HT (proj2 J1))|].
-    eapply st_write; [apply (ps_tail_gone _ T (proj1 J2) HT (proj2 J2))|].
     eapply st_mem; [apply mem_pend_del|exact T2].
 Qed.
 
@@ -321,10 +316,9 @@ Proof.
       split; [unfold K; lia|]. intros n Hn. change (on_disk s n). apply stored_on_disk; auto. apply P5. unfold K in Hn. lia. }
     assert (J0 : Jh K s0) by (split; auto).
     pose proof (delete_seq_steps2 (Jh K) (script_of fails) nh (Jh_disk K)) as L.
-    specialize (L (fun x n Jx => conj (proj1 Jx) (ps_disk_pred x _ (conj eq_refl (conj eq_refl (conj eq_refl eq_refl))) (proj2 Jx)))).
     specialize (L (fun x Jx => proj2 Jx)).
     specialize (L (N.to_nat (H + 1 - from)) s0 from []).
-    assert (JH : forall x m, from <= m -> inr m -> Jh K x -> Jh K (write x [WDelH (h_id (c m))])).
+    assert (JH : forall x m, from <= m -> inr m -> Jh K x -> Jh K (write x [WDelH (h_id (c m)); WDelI m])).
     { intros x m Hm Hi Jx. apply Jh_del_hdr; auto. unfold K. lia. }
     specialize (L JH M0 J0).
     destruct (delete_seq_spec (sS sp) fails nh (N.to_nat (H + 1 - from)) s0 from [] M0 PC0) as (s1 & E & M1 & SP1 & St1 & Same).
